@@ -28,7 +28,7 @@ ASSUMPTIONS = [
     "1e-12 of a symbolisation bin edge, Fourier f*n_freq at an exact half or a Gaussian sigma of 0",
     "custom moment calculators and coordinate filters are user inputs and are shared between implementation and reference",
 ]
-REQUIRED_COUNTERS = {"default_constructed": 40, "sim_and_real_lengths_differ": 40, "negative_weight": 15, 
+REQUIRED_COUNTERS = {"data_on_a_large_common_level": 25, "default_constructed": 40, "sim_and_real_lengths_differ": 40, "negative_weight": 15, 
     "minkowski": 50, "msm": 50, "fourier": 50, "gsl": 50, "likelihood": 50, "moments18": 50,
     "integer_typed_data": 40, "with_filters": 40, "with_weights": 40, "ensemble_ge2": 40, "second_call_same_object": 150,
 }
@@ -136,6 +136,11 @@ def run_case(desc, ctx):
                 else:
                     sim = np.ascontiguousarray(sim[:, : N - cut])
                 c["sim_and_real_lengths_differ"] = c.get("sim_and_real_lengths_differ", 0) + 1
+        if kind in ("likelihood", "minkowski") and not int_data and d.get("filters") is None and rng.random() < 0.2:
+            # a common level far above the fluctuations (prices around 1e6 moving by units): the definitions only see differences
+            level = float(rng.choice([-1.0, 1.0]) * 10.0 ** rng.uniform(3, 8))
+            real, sim = real + level, sim + level
+            c["data_on_a_large_common_level"] = c.get("data_on_a_large_common_level", 0) + 1
         if int_data:
             c["integer_typed_data"] = c.get("integer_typed_data", 0) + 1
         if d.get("defaults"):
